@@ -203,16 +203,54 @@ def r3_scan(rep, ctx):
     m = ctx.model
     fn = m.method("Array", "_DoValidateValues")
     loops = [n for n in own_statements(fn.node) if isinstance(n, ast.For)]
+    sres = Resolver(m, fn)
+
+    def is_checkvalue(c):
+        """a call of <quantity>.CheckValue, directly or through a local alias of the bound method"""
+        if not isinstance(c, ast.Call):
+            return False
+        t = sres.term(c.func)
+        return any(a_[0] == "attr" and a_[2] == "CheckValue" for a_ in alternatives(t))
+
     # --- flat branch: loops over the iterator
     it_loops = [lp for lp in loops if isinstance(lp.iter, ast.Name) and lp.iter.id == "iterator"]
     if len(it_loops) < 1:
         raise AnalysisError("Array._DoValidateValues: scan loops over `iterator` not found (scan idiom changed)")
     def isnan_test(t, var):
         return isinstance(t, ast.Call) and len(t.args) == 1 and isinstance(t.args[0], ast.Name) and t.args[0].id == var and ("nan" in ast.unparse(t.func).lower() or "isnam" in ast.unparse(t.func))
+    from ..facts import facts as nfacts
+    scfg = CFG(fn.node)
     for i, lp in enumerate(it_loops):
         var = lp.target.id if isinstance(lp.target, ast.Name) else None
-        first = lp.body[0] if lp.body else None
-        ok = isinstance(first, ast.If) and isnan_test(first.test, var) and len(first.body) == 1 and isinstance(first.body[0], ast.Continue) and not first.orelse
+        # every read of the element other than the NaN test itself happens where `isnan(element)` is known false
+        ok = var is not None
+        n_reads = 0
+        for x in own_nodes(lp):
+            if not (isinstance(x, ast.Name) and x.id == var and isinstance(x.ctx, ast.Load)):
+                continue
+            par = getattr(x, "_parent", None)
+            if isnan_test(par, var):
+                continue
+            if any(x is y for inner in own_statements(lp) if isinstance(inner, ast.For) and inner is not lp for y in ast.walk(inner.iter)):
+                continue
+            n_reads += 1
+            try:
+                nid = scfg.node_of(x)
+            except AnalysisError:
+                ok = False
+                continue
+            def binding_loop(node_):
+                p_ = getattr(node_, "_parent", None)
+                while p_ is not None and p_ is not fn.node:
+                    if isinstance(p_, ast.For) and any(isinstance(y, ast.Name) and y.id == var for y in ast.walk(p_.target)):
+                        return p_
+                    p_ = getattr(p_, "_parent", None)
+                return None
+
+            # (a fact about `var` counts only if it was established for the same binding of the loop variable)
+            if not any(k == "truth" and not pos and isnan_test(l_, var) and binding_loop(l_) is binding_loop(x) for k, l_, r_, pos in nfacts(scfg, nid)):
+                ok = False
+        ok = ok and n_reads > 0
         rep.check(ok, "C12.R3", "scan:loop%d:nan-first" % i, "the loop skips NaN elements before anything else looks at them",
                   "a scan loop uses the element before (or without) the NaN test: a NaN element enters the min/max accumulators and fails or hides a limit violation", node=lp, fn=fn)
     inner = it_loops[-1]
@@ -242,7 +280,7 @@ def r3_scan(rep, ctx):
     rep.check(init_ok, "C12.R3", "scan:initialised-from-element", "both accumulators start from the first non-NaN element", "the accumulators are not both initialised from the first non-NaN element", node=outer, fn=fn)
     checked = set()
     for st in outer.body:
-        if isinstance(st, ast.Expr) and isinstance(st.value, ast.Call) and ast.unparse(st.value.func) in ("CheckValue", "quantity.CheckValue") and st.value.args and isinstance(st.value.args[0], ast.Name):
+        if isinstance(st, ast.Expr) and is_checkvalue(st.value) and st.value.args and isinstance(st.value.args[0], ast.Name):
             checked.add(st.value.args[0].id)
     want = set(mins) | set(maxs)
     rep.check(bool(want) and want <= checked, "C12.R3", "scan:both-extremes-checked", "the smallest and the largest element are both handed to CheckValue",
@@ -259,13 +297,17 @@ def r3_scan(rep, ctx):
     for lp in tup:
         for in_lp in [x for x in own_statements(lp) if isinstance(x, ast.For)]:
             if isinstance(in_lp.iter, ast.Name) and isinstance(lp.target, ast.Name) and in_lp.iter.id == lp.target.id:
-                calls = [c for c in own_nodes(in_lp) if isinstance(c, ast.Call) and ast.unparse(c.func) in ("CheckValue", "quantity.CheckValue") and c.args and isinstance(c.args[0], ast.Name) and c.args[0].id == in_lp.target.id]
+                calls = [c for c in own_nodes(in_lp) if is_checkvalue(c) and c.args and isinstance(c.args[0], ast.Name) and c.args[0].id == in_lp.target.id]
                 ok = ok or bool(calls)
     rep.check(ok, "C12.R3", "tuples:every-element", "in the tuple-of-tuples branch every component of every tuple reaches CheckValue", "the tuple-of-tuples branch does not hand every component to CheckValue", fn=fn)
     # CheckValue is the quantity's
-    binds = [st for st in own_statements(fn.node) if isinstance(st, ast.Assign) and isinstance(st.targets[0], ast.Name) and st.targets[0].id == "CheckValue"]
-    okb = bool(binds) and all(ast.unparse(st.value) == "quantity.CheckValue" for st in binds)
-    rep.check(okb, "C12.R3", "scan:checker-is-the-quantity", "elements are checked by the CheckValue of the quantity being validated", "CheckValue is bound to %s" % [ast.unparse(st.value) for st in binds], fn=fn)
+    PQ = ("param", fn.params.index("quantity"), "quantity") if "quantity" in fn.params else None
+    cvs = [c for c in own_nodes(fn.node) if is_checkvalue(c)]
+    recvs = {a_[1] for c in cvs for a_ in alternatives(sres.term(c.func)) if a_[0] == "attr"}
+    if not cvs or PQ is None:
+        raise AnalysisError("Array._DoValidateValues: no CheckValue call / no quantity parameter found (validation idiom changed)")
+    okb = recvs == {PQ}
+    rep.check(okb, "C12.R3", "scan:checker-is-the-quantity", "elements are checked by the CheckValue of the quantity being validated", "CheckValue is taken from %s" % sorted(show(x, 60) for x in recvs), fn=fn)
     # --- scalar kinds
     for cname, want_arg in (("Scalar", ("field", "_value")), ("FractionScalar", ("call", ("name", "float"), (("field", "_value"),), ()))):
         cv = m.own_method(cname, "CheckValidity")
